@@ -18,7 +18,7 @@ EXPLANATION = ('Theorems in Props/C18.lean about the model scanner: tokens indep
                'blank lines ignored, statement splitting independent of line breaks, case folding of mnemonics/registers. '
                'The real code uses Python regexes: modelled, not verified; tied by the differential runs.')
 ASSUMPTIONS = ['a data directive is always the last statement on its line (the data-line pattern owns the rest of the line)',
-               'strings and preprocessor directives are not part of the rewritten language']
+               'quoted literals are generated without backslash escapes; preprocessor directives are not part of the rewritten language']
 LEVEL = 'proof'
 MNEMS = ['nop', 'ldn', 'ldi', 'ldw', 'jr', 'jre', 'st', 'inc', 'mv', 'ldx', 'ldv']
 
@@ -235,8 +235,6 @@ def judge(case, irs, mrs):
     texts = [m['canon'] for m in mrs]
     consts_hdr = ''
     for t2, t in zip(texts, case['variants']):
-        if case.get('quoted'):
-            break           # the model scanner has no quoted tokens: these programs are checked on the real code only
         r2 = impl.run_one(impl.compile_case(case['isa'], {'main.asm': t2}), timeout=10)
         im2 = impl.fbytes(r2, 'out.bin') if r2['status'] == 'ok' else None
         if im2 != base:
